@@ -299,6 +299,73 @@ func cloneRows(p *pkgSrc) []cloneRow {
 	return rows
 }
 
+// reachableStructs: the struct types of the package reachable from root through fields (pointers, values, slices),
+// root included, in order of discovery
+func reachableStructs(p *pkgSrc, root string) []string {
+	seen := map[string]bool{}
+	var order []string
+	var visit func(t string)
+	visit = func(t string) {
+		if seen[t] {
+			return
+		}
+		fields, ok := p.structFields(t)
+		if !ok {
+			return
+		}
+		seen[t] = true
+		order = append(order, t)
+		for _, f := range fields {
+			if ft := p.fieldElemType(t, f); ft != "" {
+				visit(ft)
+			}
+		}
+	}
+	visit(root)
+	return order
+}
+
+// fieldElemType: the named type a field holds, through pointers and slices
+func (p *pkgSrc) fieldElemType(t, f string) string {
+	for _, fn := range p.sortedFiles() {
+		for _, d := range p.files[fn].Decls {
+			gd, ok := d.(*ast.GenDecl)
+			if !ok || gd.Tok != token.TYPE {
+				continue
+			}
+			for _, s := range gd.Specs {
+				ts := s.(*ast.TypeSpec)
+				st, ok := ts.Type.(*ast.StructType)
+				if ts.Name.Name != t || !ok {
+					continue
+				}
+				for _, fl := range st.Fields.List {
+					for _, n := range fl.Names {
+						if n.Name != f {
+							continue
+						}
+						e := fl.Type
+						for {
+							if se, ok := e.(*ast.StarExpr); ok {
+								e = se.X
+							} else if at, ok := e.(*ast.ArrayType); ok {
+								e = at.Elt
+							} else {
+								break
+							}
+						}
+						if id, ok := e.(*ast.Ident); ok {
+							return id.Name
+						}
+						return ""
+					}
+				}
+			}
+		}
+	}
+	return ""
+}
+
 func genCloneFields(repo string) (string, error) {
 	var b strings.Builder
 	b.WriteString("From Coq Require Import List String.\nImport ListNotations.\nOpen Scope string_scope.\n\n")
@@ -317,6 +384,14 @@ func genCloneFields(repo string) (string, error) {
 			xs = append(xs, fmt.Sprintf("  (* %s *) (%s, %s, %s, %s)", r.Pos, coqString(r.Fn), coqString(r.Typ), coqStringList(r.Declared), coqStringList(r.Copied)))
 		}
 		fmt.Fprintf(&b, "Definition %s : list (string * string * list string * list string) := [\n%s\n].\n\n", x.name, strings.Join(xs, ";\n"))
+		if x.dir == "pkg/style" {
+			reach := reachableStructs(p, "Style")
+			if len(reach) < 10 {
+				return "", fmt.Errorf("only %d struct types reachable from style.Style", len(reach))
+			}
+			b.WriteString("(* the struct types a style can hold, directly or through other settings *)\n")
+			fmt.Fprintf(&b, "Definition style_reachable_types : list string := %s.\n\n", coqStringList(reach))
+		}
 	}
 	return b.String(), nil
 }
